@@ -137,6 +137,7 @@ type VC struct {
 	retLines []string
 	goalSk   []T
 	goalIdx  [][2]T
+	progIdx  []T // index terms used by the program (candidates for instantiation)
 	pendingHints []T
 	splits   []T // case-split candidates (e.g. append fits in place) for obligations the solvers cannot decide whole
 }
